@@ -36,10 +36,12 @@ def main():
     rc, out = sh(f"git -C /repo worktree add --detach {wt} HEAD")
     try:
         env = dict(os.environ, PYTHONPATH=wt)
-        rc0, o0 = sh(f"/venv/bin/python {dst}/demo.py", cwd=wt, env=env)
+        os.makedirs(os.path.join(wt, "_seed"), exist_ok=True)
+        shutil.copy(os.path.join(dst, "demo.py"), os.path.join(wt, "_seed", "demo.py"))  # demos locate the tree via __file__
+        rc0, o0 = sh("/venv/bin/python _seed/demo.py", cwd=wt, env=env)
         rca, oa = sh(f"git apply {dst}/patch.diff", cwd=wt)
         rct, ot = sh("/venv/bin/python -m pytest -q -p no:cacheprovider 2>&1 | tail -1", cwd=wt)
-        rc1, o1 = sh(f"/venv/bin/python {dst}/demo.py", cwd=wt, env=env)
+        rc1, o1 = sh("/venv/bin/python _seed/demo.py", cwd=wt, env=env)
         meta["confirmation"] = {"patch_applies": rca == 0, "tests_with_patch": ot.strip(),
                                 "demo_exit_without_patch": rc0, "demo_exit_with_patch": rc1,
                                 "demo_output_with_patch": o1[-600:]}
